@@ -127,7 +127,7 @@ NAMES = {
     "internal-p": {"x": "x", "k": "k", "v1": "v1", "d": "init_p"},
     "internal-fn": {"x": "x", "k": "k", "v1": "ma1", "d": "add2"},
 }
-COEFS = ["one", "two", "half", "neghalf", "pname", "pcomp", "ncomp"]
+COEFS = ["one", "two", "half", "neghalf", "pname", "pcomp", "ncomp", "zero"]
 DERIVED = ["none", "dpar", "dvar", "coef2"]
 IAS = ["none", "var", "par"]
 STATES = [[0.5, 2.0], [2.0, 0.5], [1.0, 1.0], [3.0, 1.5], [2.5, 4.0], [0.25, 3.0]]  # incl. x mod y >= y / 2
@@ -217,7 +217,7 @@ def build_model(c):
     else:
         m.add_parameter("p", 3.0)
     coef = {
-        "one": 1, "two": 2, "half": 0.5, "neghalf": -0.5, "pname": "p",
+        "one": 1, "two": 2, "half": 0.5, "neghalf": -0.5, "pname": "p", "zero": 0.0,
         "pcomp": Derived(fn=L.half_plus, args=[K]), "ncomp": Derived(fn=L.neg_half, args=[K]),
     }[c["coef"]]
     m.add_reaction(V1, getattr(L, f"law_{c['law']}"), args=[X, "y", K], stoichiometry={X: -1, "y": coef})
